@@ -454,9 +454,9 @@ class Reader(Common):
         self.pending_min1 = []
 
     def run(self):
-        check_statement_kinds(self.fn)
         body = strip_doc(self.fn.body)
         self.block(body, (10, 20), top=True)
+        check_statement_kinds(self.fn)
         if not self.header:
             raise Unrecognised("read() does not start with the structure header (super().read)", self.fn)
         if not self.streams:
@@ -929,8 +929,8 @@ class Writer(Common):
         self._narrow = None
 
     def run(self):
-        check_statement_kinds(self.fn)
         self.block(strip_doc(self.fn.body), (10, 20))
+        check_statement_kinds(self.fn)
         if self.trailer != {"length", "super", "flush"}:
             raise Unrecognised("write() does not end with length / header / buffer (found %s)" % sorted(self.trailer),
                                self.fn)
